@@ -77,7 +77,7 @@ func execFootprint(input string) Result {
 }
 
 func genFootprint(r *Rng, i int, tier string) string {
-	mode := []string{"hosts", "hosts", "", "bodies"}[r.Intn(4)]
+	mode := []string{"hosts", "hosts", "", "bodies", "adversarial"}[r.Intn(5)] // adversarial: endless redirect chains of ever-new URLs, cut by --max-redirect
 	s := fmt.Sprintf("site=%d w=%d mca=%d sched=%d seeds=%d mr=%d retry=%d", r.U64()%1000000, 1+r.Intn(3), 1+r.Intn(3), r.U64()%1000, 2+r.Intn(4), 1+r.Intn(3), r.Intn(2))
 	if mode != "" {
 		s += " mode=" + mode
@@ -87,6 +87,9 @@ func genFootprint(r *Rng, i int, tier string) string {
 	}
 	if r.Chance(25) {
 		s += " ondisk=1"
+	}
+	if r.Chance(25) {
+		s += " proxy=1 discard=404,503" // the proxied WARC client: rejected responses, hang-ups and truncated bodies must leave nothing behind either
 	}
 	if r.Chance(25) {
 		s += " inc=A" // --include-host: every third seed (and every asset elsewhere) is out of scope and must leave no trace either
